@@ -29,6 +29,13 @@ def gen_case(rng, enabled=True):
     window = rng.choice([1.0, 0.5, 0.25, 0.125, 0.0625, 2.0])
     frame_bits = tx_dl * 8
     bits = rng.choice([frame_bits, frame_bits, frame_bits + 8, 2 * frame_bits, 3 * frame_bits + 16, 10 * frame_bits, 4096])
+    # trickle: a long message paced by the peer's STmin (frames 3 ms apart, well under the budget) for a good part of a window, then
+    # a queue that can burst: what was sent during the trickle still counts until it is a full window old
+    trickle = enabled and rng.random() < 0.25
+    if trickle:
+        tx_dl, window = 8, rng.choice([1.0, 0.5])
+        frame_bits = 64
+        bits = rng.choice([64 * 64, 48 * 64])
     bitrate = int(Fraction(bits) / Fraction(window))
     while bitrate * window < frame_bits:
         bitrate += 1
@@ -48,8 +55,10 @@ def gen_case(rng, enabled=True):
     W = int(window * 10**9)
     pr = PeerRun([inst], links={0: 0})
     payloads = []
-    for _ in range(rng.randint(1, 5)):
+    for mi in range(rng.randint(1, 5) if not trickle else rng.randint(5, 8)):
         n = max(1, rng.choice([1, 3, 6 - plen, 7 - plen, tx_dl - 2 - plen, tx_dl * 2, tx_dl * 5, 100]))
+        if trickle:
+            n = rng.choice([250, 300]) if mi == 0 else rng.choice([100, 150, 5])
         pay = bytes(rng.getrandbits(8) for _ in range(n))
         payloads.append(hx(pay))
         pr.send(0, hx(pay))
@@ -64,14 +73,17 @@ def gen_case(rng, enabled=True):
         while waiting(line) and guard < 50:
             # the sender waits for a flow control: the receiver answers at once (no deadline is ever missed by the peer)
             guard += 1
-            pr.op(0, 'rx', rid, int(ext), hx(pfx + bytes([0x30, bs, 0])))
+            pr.op(0, 'rx', rid, int(ext), hx(pfx + bytes([0x30, bs, 3 if (trickle and not pr.done[0]) else 0])))
             line = pr.proc(0)
         if not pr.impl[0].layer.transmitting():
             break
-        pr.tick_all(rng.choice(steps) if enabled else rng.choice([0, 1, 1000]))
+        if trickle and not pr.done[0]:
+            pr.tick_all(3 * 10**6 + 1)
+        else:
+            pr.tick_all(rng.choice(steps) if enabled else rng.choice([0, 1, 1000]))
     pr.close()
     case = pr.case
-    case.update({'nops': len(case['ops']), 'payloads': payloads, 'W': W, 'B': bitrate * window, 'tx_dl': tx_dl, 'enabled': enabled,
+    case.update({'trickle': trickle, 'nops': len(case['ops']), 'payloads': payloads, 'W': W, 'B': bitrate * window, 'tx_dl': tx_dl, 'enabled': enabled,
                  'impl_lines': pr.lines})
     return case
 
@@ -144,6 +156,7 @@ def run_shard(campaign, shard, nshards, seed, tier):
         p = case['insts'][0]['params']
         part.hist('budget_frames', round(case['B'] / (8 * case['tx_dl']), 2))
         part.hist('window_s', p['rate_limit_window_size'])
+        part.hist('trickle', str(case.get('trickle')))
         lc.run_case(part, campaign, case, oracle=oracle, theorem=THEOREMS)
         part.sample({'params': p, 'payload_lens': [len(x) // 2 for x in case['payloads']], 'ops': case['ops'][:6]})
     return part.result()
